@@ -269,6 +269,65 @@ def r9_total_type_walkers(ctx):
     ctx.floor('C01.R9', 'recursive call sites in them', n_sites, 6)
 
 
+def r10_framework_items_for_every_pipeline(ctx):
+    ctx.rule('C01.R10', 'P8 coverage: the generated Router::route binds a framework item (request body, connection info, path parameters, ..) iff '
+             'some pipeline it may invoke needs it. In codegen::router::path_router every pipeline-bearing field of the per-path router '
+             '(CodegenMethodRouter: the method-specific pipelines and the per-path catch-all) that the function reads at all is also read by '
+             'the code that answers `needs_framework_item`: otherwise a nested fallback that alone needs the item is invoked with an '
+             'unbound variable (E0425 in generated code).')
+    item = PX + 'codegen::router::path_router'
+    bodies = ctx.fb.bodies_of_item('pavexc', item)
+    if not ctx.need('C01.R10', 'codegen::router::path_router', bodies):
+        return
+    bearing = {}
+    for a in ctx.fb.adts('pavexc'):
+        for v in a['variants']:
+            for f in v['fields']:
+                if 'CodegenedRequestHandlerPipeline' in f['ty']:
+                    bearing.setdefault(strip_generics(a['id']), set()).add(f['n'])
+    if not ctx.need('C01.R10', 'structs holding CodegenedRequestHandlerPipeline values', bearing):
+        return
+
+    def reads(b):
+        out = set()
+        for bb, blk in enumerate(b.blocks):
+            nodes = list(blk['st']) + ([blk['term']] if blk['term'] else [])
+            for node in nodes:
+                pls = []
+                if 'rv' in node:
+                    ops, places = rv_operands(node['rv'])
+                    pls = places + [op_place(o) for o in ops if op_place(o) is not None]
+                elif node.get('k') == 'call':
+                    pls = [op_place(o) for o in node['args'] if op_place(o) is not None]
+                for q in pls:
+                    fo = q.get('fo') or []
+                    i = 0
+                    for el in q.get('p', []):
+                        if el.startswith('f:'):
+                            o = strip_generics(fo[i]) if i < len(fo) else ''
+                            i += 1
+                            if el[2:] in bearing.get(o, ()):
+                                out.add((o.split('::')[-1], el[2:]))
+        return out
+    deciding = set()
+    n_dec = 0
+    for b in bodies:
+        if any((callee(t) or '').endswith('::needs_framework_item') for _, t in b.calls()):
+            n_dec += 1
+            # the closure itself and the closures nested in it
+            for x in bodies:
+                if x.id == b.id or x.id.startswith(b.id + '::'):
+                    deciding |= reads(x)
+    used = set()
+    for b in bodies:
+        used |= reads(b)
+    ctx.floor('C01.R10', 'bodies answering needs_framework_item', n_dec, 1)
+    for o, f in sorted(used):
+        ctx.ob('C01.R10', 'consulted|%s.%s' % (o, f), (o, f) in deciding, bodies[0].loc(),
+               'path_router uses %s.%s; the needs_framework_item decision reads it: %s' % (o, f, (o, f) in deciding))
+    ctx.floor('C01.R10', 'pipeline-bearing fields used by path_router', len(used), 2)
+
+
 def check(ctx):
     r1_typestate(ctx)
     r2_pipeline(ctx)
@@ -277,3 +336,4 @@ def check(ctx):
     r7_mut_binding(ctx)
     r8_rendered_crate_names(ctx)
     r9_total_type_walkers(ctx)
+    r10_framework_items_for_every_pipeline(ctx)
